@@ -153,7 +153,24 @@ def request_bytes(ver, value, method, framing, early):
     return b"\r\n".join(lines) + b"\r\n\r\n" + body
 
 
+EARLY_KEY = "early_finish_close_unannounced"
+
+
+def _known_early(ver, conn, method, framing, nka, early, rmode):
+    """Shape of the recorded finding: the handler finishes before the request body was read on a
+    request that otherwise allows keep-alive. HTTP1Connection decides to close only in finish(), after
+    the response head has been written, so the close is not announced (1.1) / keep-alive is acknowledged
+    (1.0)."""
+    value = CONN_POOL[conn]
+    opts = options_of(value)
+    allows = request_allows(ver, opts, framing != 0 or _M[method] in ("GET", "HEAD"))
+    self_delimiting = _M[method] == "HEAD" or rmode != 1 or ver == 1
+    return bool(early and allows and (not nka) and self_delimiting)
+
+
 def classify_ka(ver, conn, method, framing, nka, early, rmode):
+    if _known_early(ver, conn, method, framing, nka, early, rmode):
+        return EARLY_KEY
     return classify_conn(CONN_POOL[conn])
 
 
@@ -219,10 +236,15 @@ def h_keepalive(ver: int, conn: int, method: int, framing: int, nka: bool, early
         assert not answered2 and left == "clean", \
             "2nd request answered on a connection that had to close: %r" % wire
         assert closed, "connection left open although it had to close: %r" % wire
-        if ver == 1:
+        # recorded known finding (known_findings.json): with that key excluded only the two announcement
+        # assertions are skipped for that shape; everything else is still checked on those inputs
+        skip_announce = (EARLY_KEY in P.exclude and
+                         _known_early(ver, conn, method, framing, nka, early, rmode))
+        if ver == 1 and not skip_announce:
             assert ch == b"close", \
                 "HTTP/1.1 client not told 'Connection: close' (got %r) before closing" % ch
-        assert ch != b"keep-alive", "keep-alive acknowledged on a connection that is then closed"
+        if not skip_announce:
+            assert ch != b"keep-alive", "keep-alive acknowledged on a connection that is then closed"
 
 
 TECHNIQUE = ("CrossHair symbolic execution of the real keep-alive decision path (version, Connection value with "
